@@ -48,9 +48,14 @@ inductive Act where
   | peerReq                   -- a peer asks for the tree (`handleRequestTree`: `treeStorage.Get`, no refresh)
   | doneRefused (tok : Nat)   -- `Done()` with an `OnDoneCallback` that returns false: nothing happens
   | treeResp                  -- the tree arrives from the peer that was asked for it
+  | ctorFail (i : Nat)        -- the protocol constructor of thread `i` (at `bind`) returns an error
   deriving Repr
 
 def at_ (p : Pc) (t : Th) : Bool := t.pc == p
+
+/-- tokens numbered 1000 and above carry the tree's id and a node id that is not in the tree (any peer can send
+that): `TreeNodeFromTree` fails and `TransmitMsg` returns "No TreeNode defined in this tree here" -/
+def badTok (tok : Nat) : Bool := 1000 ≤ tok
 
 /-- thread `t` is inside the creation of instance `tok` (listed, constructor not yet returned) -/
 def regTok (tok : Nat) (t : Th) : Bool := (t.pc == .set || t.pc == .bind) && t.tok == tok
@@ -80,6 +85,11 @@ def stepTh (s : St) (i : Nat) (t : Th) : Option St :=
                       thr := s.thr.set i { t with pc := .fin } }
       else if t.tok ∈ s.live then
         some { s with handed := s.handed ++ [(t.tok, t.m)], thr := s.thr.set i { t with pc := .fin } }
+      else if badTok t.tok then
+        -- the token names no node of the tree: refused with an error; the removal cancelled by the lookup is
+        -- scheduled again (`cleanTreeStorage` on the error path, /repo fix of round 5)
+        some { s with armed := if s.live = [] then true else s.armed,
+                      thr := s.thr.set i { t with pc := .fin } }
       else
         some { s with live := s.live ++ [t.tok], used := true, thr := s.thr.set i { t with pc := .set } }
   | .set =>
@@ -117,8 +127,23 @@ def step (s : St) : Act → Option St
       if s.requested ∧ s.present = false then
         some { s with present := true, armed := false, requested := false, thr := flushAll s.thr }
       else none
+  -- the constructor returns an error (an arrival: `newProtocol` fails in `TransmitMsg`; a local start:
+  -- `protocolInstantiate` fails in `CreateProtocol`): `nodeDelete` — unlisted, marked finished,
+  -- `cleanTreeStorage`; nothing is handed over
+  | .ctorFail i =>
+      match s.thr[i]? with
+      | some t =>
+        if t.pc = .bind then
+          let live' := s.live.filter (· != t.tok)
+          some { s with live := live', settled := s.settled.filter (· != t.tok),
+                        doneToks := s.doneToks ++ [t.tok],
+                        constructed := s.constructed ++ [t.tok],
+                        armed := if live' = [] then true else s.armed,
+                        thr := s.thr.set i { t with pc := .fin } }
+        else none
+      | none => none
   | .localStart tok =>
-      if tok ∈ s.live ∨ tok ∈ s.doneToks ∨ tok ∈ s.constructed then none
+      if badTok tok ∨ tok ∈ s.live ∨ tok ∈ s.doneToks ∨ tok ∈ s.constructed then none
       else some { s with live := s.live ++ [tok], used := true,
                          thr := s.thr ++ [⟨tok, 0, .set⟩] }
   | .peerReq => some { s with peerAsked := s.peerAsked + 1,
@@ -137,6 +162,32 @@ def stepOld (s : St) : Act → Option St
         else stepTh s i t
       | none => none
   | a => step s a
+
+/-- the code as it was before the two repairs of round 5: the error path of `TransmitMsg` for a token that
+names no node of the tree returns without `cleanTreeStorage`, and `CreateProtocol` returns the constructor's
+error without `nodeDelete` (for an arrival `TransmitMsg` did call it) -/
+def stepOld5 (s : St) : Act → Option St
+  | .thread i =>
+      match s.thr[i]? with
+      | some t =>
+        if t.pc = .found ∧ s.thr.countP holdsMux = 0 ∧ t.tok ∉ s.doneToks ∧ t.tok ∉ s.live ∧ badTok t.tok then
+          some { s with thr := s.thr.set i { t with pc := .fin } }
+        else stepTh s i t
+      | none => none
+  | .ctorFail i =>
+      match s.thr[i]? with
+      | some t =>
+        if t.pc = .bind ∧ t.m = 0 then
+          some { s with constructed := s.constructed ++ [t.tok], thr := s.thr.set i { t with pc := .fin } }
+        else step s (.ctorFail i)
+      | none => none
+  | a => step s a
+
+def runOld5 (s : St) : List Act → St
+  | [] => s
+  | a :: as => match stepOld5 s a with
+      | some s' => runOld5 s' as
+      | none => runOld5 s as
 
 def runOld (s : St) : List Act → St
   | [] => s
@@ -172,14 +223,22 @@ def pcName : Pc → String
   | .lookup => "lookup" | .found => "found" | .set => "set" | .bind => "ctor" | .fin => "fin"
   | .flushed => "flushed" | .parked => "parked"
 
-/-- let thread i go on through `Set` (and, unless `stopAtCtor`, through the constructor) -/
+/-- instances numbered 500 to 999 are runs of a protocol whose constructor returns an error (harness convention) -/
+def failTok (tok : Nat) : Bool := 500 ≤ tok && tok < 1000
+
+/-- let thread i go on through `Set` (and, unless `stopAtCtor`, through the constructor; a failing constructor is
+never held) -/
 def finish (x : St) (i : Nat) (stopAtCtor : Bool) : St :=
   let x1 := match x.thr[i]? with
     | some t => if t.pc = .set then (C11.step x (.thread i)).getD x else x
     | none => x
-  if stopAtCtor then x1 else
   match x1.thr[i]? with
-  | some t => if t.pc = .bind then (C11.step x1 (.thread i)).getD x1 else x1
+  | some t =>
+    if t.pc = .bind then
+      if failTok t.tok then (C11.step x1 (.ctorFail i)).getD x1
+      else if stopAtCtor then x1
+      else (C11.step x1 (.thread i)).getD x1
+    else x1
   | none => x1
 
 /-- the flush goroutine gives the (one) flushed message to `TransmitMsg`: its lookup happens at once and it
@@ -191,7 +250,8 @@ def relook (x : St) : St :=
 
 /-- ops: `arrive <tok> <m>` (thread runs to its hook point after the lookup), `thread <tok> <m>`
 (the `transmitMux` region to its end), `done <tok>`, `wait` (longer than the grace period: the
-timer fires if armed), `localstart <tok>`. -/
+timer fires if armed), `localstart <tok>`.  Token numbers ≥ 1000 name no node of the tree (`badTok`), 500–999 have a
+failing constructor (`failTok`). -/
 def step (st : State) (toks : List String) : State × String :=
   let x := st.s
   match toks with
